@@ -28,7 +28,7 @@ class Contract:
     def __init__(self, target, self_cls=None, props=(), params=None, result=None, requires=None,
                  ensures=None, raises=None, must_raise=None, modifies=None, loops=None, inline=False,
                  pure=False, raise_frame_empty=False, decreases=None, note="", axioms=None,
-                 verify=True, name=None, fields=None, result_fn=None, max_paths=400, primary=True, call_checks=None, defaults=None, inline_calls=()):
+                 verify=True, name=None, fields=None, result_fn=None, max_paths=400, primary=True, call_checks=None, defaults=None, inline_calls=(), tags=()):
         self.target = target
         self.self_cls = self_cls
         self.props = list(props)
@@ -53,6 +53,7 @@ class Contract:
         self.max_paths = max_paths
         self.defaults = defaults or {}  # default values (SV) of interface method parameters
         self.call_checks = call_checks or {}  # callee short name -> fn(ctx, argmap) -> z3 Bool, obligation at each call site
+        self.tags = set(tags)  # free-form switches read by model hooks (e.g. how payload values are interpreted in this unit)
         self.inline_calls = set(inline_calls)  # qualified names whose body is executed in this unit although a (more abstract) contract exists
         self.primary = primary  # caller-facing contract (non-primary: extra verification unit / case)
 
@@ -72,6 +73,7 @@ class Registry:
         self.fields = {}  # field name or (cls, field) -> Ty
         self.lemmas = []  # (name, props, fn() -> (hyps, goal))
         self.units = []  # contracts to verify, in registration order
+        self.module_state = {}  # (module dotted name, global variable) -> heap field on the world object (mutable module-level state)
         self.static_dispatch = set()  # classes whose non-overridden concrete methods are dispatched statically on interface refs
         self.closed_classes = set()  # finam classes assumed to have no user subclasses (static dispatch)
 
